@@ -188,8 +188,59 @@ def explore(ctx):
     ctx.errors.extend(errs)
     for i in mism[:5]:
         ctx.tie_mismatch('compute (base run)', cases[i], refs[i], tie.model_compute_view(cases[i], 'c16_dump'))
+    narrow_threshold_stream(ctx)
     # the relabellings the theorems speak about are the ones numpy performs
     rc.run_relabel_tie(ctx, 'c16_relab', ['flip', 'pad', 'swap', 'unit'], 240 if ctx.quick else 2400)
+
+
+def narrow_threshold_stream(ctx):
+    """Raising min_value on single-precision data to decimal thresholds (not representable in float32), and arrays whose
+    size sits exactly on a power of two with every pixel kept and the last pixel a peak; oracle only."""
+    from fractions import Fraction
+    rng = ctx.rng('c16-narrow')
+    for it in range(60 if ctx.quick else 600):
+        n = rng.randint(4, 12)
+        ks = rng.sample(range(1, 40), n)
+        arr = np.array([0.1 * k for k in ks], dtype=rng.choice(['float32', 'float32', 'float16']))
+        exact = [Fraction(float(x)) for x in arr]
+        if len(set(exact)) < n:
+            continue
+        t = 0.1 * rng.choice(ks)                      # a decimal next to (not equal to) a pixel value
+        try:
+            d0 = Dendrogram.compute(arr, min_value=0.0)
+            d1 = Dendrogram.compute(arr, min_value=t)
+        except Exception as e:
+            ctx.oracle_failure({'stream': 'narrow thresholds', 'data': [float(x) for x in arr], 'dtype': str(arr.dtype), 'threshold': t}, ['compute raised %r' % (e,)])
+            continue
+        own0 = sorted(tuple(sorted(int(i[0]) for i in s._indices)) for s in d0)
+        want = sorted(o for o in (tuple(p for p in own if exact[p] > Fraction(t)) for own in own0) if o)
+        got = sorted(tuple(sorted(int(i[0]) for i in s._indices)) for s in d1)
+        ctx.count('narrow_thresholds')
+        ctx.case_done(None, ('narrow-thr', tuple(ks), t, str(arr.dtype)) if len(d0) >= 3 else None)
+        if got != want:
+            ctx.oracle_failure({'stream': 'narrow thresholds', 'data': [float(x) for x in arr], 'dtype': str(arr.dtype), 'threshold': t},
+                               ['raising min_value to %r: own pixel sets %s, expected the old ones minus the pixels <= %r: %s' % (t, got, t, want)])
+    shapes = [(8, 16), (128,), (4, 4, 8), (16, 16)] + ([] if ctx.quick else [(32768,), (128, 256)])
+    for shape in shapes:
+        npx = int(np.prod(shape))
+        vals = list(range(1, npx))
+        rng.shuffle(vals)
+        arr = np.array(vals + [npx], dtype=float).reshape(shape)         # the last pixel is the brightest
+        idx = np.arange(npx).reshape(shape)
+        try:
+            d0 = Dendrogram.compute(arr, min_value=0)
+            ax = rng.randrange(len(shape))
+            d1 = Dendrogram.compute(np.ascontiguousarray(np.flip(arr, ax)), min_value=0)
+            pm = [int(x) for x in np.flip(idx, ax).ravel().tolist()]
+            h0 = hierarchy_mapped(d0, shape, list(range(npx)))
+            h1 = hierarchy_mapped(d1, shape, pm)
+            fails = [] if h0 == h1 else ['hierarchy of a %s array (every pixel kept) differs from that of its flip along axis %d' % (shape, ax)]
+        except Exception as e:
+            fails = ['compute on a %s array with every pixel kept raised %r' % (shape, e)]
+        ctx.count('power_of_two_sizes')
+        ctx.case_done(None, ('pow2', shape))
+        if fails:
+            ctx.oracle_failure({'stream': 'power-of-two sizes', 'shape': list(shape), 'data': arr.ravel().tolist() if npx <= 256 else '(%d values)' % npx}, fails)
 
 
 def matches_known(k, case, fails, extra):
